@@ -78,6 +78,18 @@ class Harness:
     def prove(self, name, goal, kind="post"):
         return self.ctx.prove(name, goal, kind=kind)
 
+    def premise(self, name, holds):
+        """A syntactic fact about the current source on which a *modular argument* rests (e.g. "full_join still delegates to
+        left_join / anti_join", so that their deductive contracts carry over).  It is no part of the property: when it holds
+        it is recorded as a discharged structural obligation; when it does not, the code was restructured - which is neither a
+        violation nor undecided: the function is then decided by its bounded run-time contract alone (which runs in every
+        tier), and the loss of the deductive link is reported (line PREMISE-LOST, evidence: unchecked assumptions)."""
+        if holds:
+            return self.ctx.prove("premise: " + name, True, kind="premise")
+        self.ctx.used_models.add(f"PREMISE LOST ({self.contract.name()}): {name} - no deductive link to the callees' contracts any more; "
+                                 "decided by the bounded run-time contract of this function only")
+        return None
+
     def assume(self, f):
         self.ctx.assume(f)
 
